@@ -26,6 +26,12 @@ Proof.
   apply andb_prop in H as [H1 H2]. f_equal; auto.
 Qed.
 
+Lemma pystr_eqb_eq a b : pystr_eqb a b = true -> a = b.
+Proof.
+  revert b; induction a as [|x a IH]; intros [|y b] H; cbn in H; try discriminate; auto.
+  apply andb_prop in H as [H1 H2]. apply N.eqb_eq in H1. subst. f_equal; auto.
+Qed.
+
 Lemma pystr_eqb_refl s : pystr_eqb s s = true.
 Proof. induction s as [|x s IH]; cbn; auto. now rewrite N.eqb_refl. Qed.
 
